@@ -70,6 +70,8 @@ class OutlineBase(plumpy.WorkChain):
             idx = sum(1 for t in tr if t.startswith('s'))
             script = self.inputs['rets']
             val = script[idx] if idx < len(script) else None
+            if val == '@AW':
+                val = HANDLE  # the step stops the chain with an object that happens to be awaitable: a value like any other
             if val == '@TC0':
                 val = plumpy.ToContext()  # a context assignment that happens to be empty (a fan-out over zero items): nothing to wait for, the chain goes on
         tr.append(name)
@@ -83,6 +85,8 @@ class OutlineBase(plumpy.WorkChain):
             self.ctx.last = self.ctx.log
         self.ctx.last.append(name)
         self.ctx._n = getattr(self.ctx, '_n', 0) + 1  # (a context key may have any name, also one with a leading underscore)
+        # ... and, written the dictionary way, any string at all: 'calls-of.<name>' is no identifier
+        self.ctx['calls-of.%s' % name] = self.ctx.get('calls-of.%s' % name, 0) + 1
         if kind == 's' and self.inputs.get('midsave'):
             # the step saves the workchain from inside itself (e.g. an extra checkpoint under a tag); the saved state is not used
             plumpy.Bundle(self)
@@ -95,6 +99,21 @@ class OutlineBase(plumpy.WorkChain):
         if kind == 's' and self.inputs.get('emit'):
             self.out('o_%s_%d' % (name, idx), idx)
         return val
+
+
+class _Handle:
+    """A value that is awaitable (a handle on something submitted elsewhere).  Nobody is meant to await it here."""
+
+    def __await__(self):
+        if False:
+            yield
+        return 'the handle was awaited'
+
+    def __repr__(self):
+        return '<handle>'
+
+
+HANDLE = _Handle()
 
 
 class _Found:
